@@ -108,14 +108,20 @@ def random_dag(rng, n, p):
     return [(i, j) for i in range(n) for j in range(n) if pos[j] < pos[i] and rng.random() < p]
 
 
-def mk_spec(n, edges, kinds=None, whens=None, inputs=None):
-    """edges: (i, j) or (i, j, kind); kind in step|file|glob"""
+def mk_spec(n, edges, kinds=None, whens=None, inputs=None, unspawnable=()):
+    """edges: (i, j) or (i, j, kind); kind in step|file|glob|globi.
+    unspawnable: steps whose command cannot be SPAWNED (not: exits non-zero): they get a --line_items dependency on a
+    file with a NUL byte in a selected line; xvc exports the lines in XVC_ALL_LINE_ITEMS and exec() refuses the
+    environment with EINVAL, after the step has reserved its process slot."""
     es = []
     for k, e in enumerate(edges):
         kind = e[2] if len(e) > 2 else (kinds[k] if kinds else 'step')
         es.append([e[0], e[1], kind])
-    return {'n': n, 'edges': es, 'whens': list(whens) if whens else ['by_dependencies'] * n,
+    spec = {'n': n, 'edges': es, 'whens': list(whens) if whens else ['by_dependencies'] * n,
             'inputs': list(inputs) if inputs else [False] * n}
+    if unspawnable:
+        spec['unspawnable'] = sorted(unspawnable)
+    return spec
 
 
 def spec_deps(spec):
@@ -128,6 +134,10 @@ def out_path(j):
 
 def in_path(i):
     return f'in/s{i}.txt'
+
+
+def nul_path(i):
+    return f'nul/s{i}.txt'
 
 
 def mk_case(spec, pool, behav=None, sched=None, runs=1, missing=(), absent_outputs=False, label='', touch_inputs=False):
@@ -169,6 +179,8 @@ def build_template(ctx, spec, absent_outputs=False):
     for i in range(n):
         if spec['inputs'][i]:
             sb.write(in_path(i), f'input {i}\n')
+    for i in spec.get('unspawnable', []):
+        sb.write(nul_path(i), b'first\nsecond\0line\nthird\n')
     log = []
 
     def x(*args):
@@ -196,6 +208,8 @@ def build_template(ctx, spec, absent_outputs=False):
                 args += ['--glob_items', f'out/s{j}/*.txt']
         if spec['inputs'][i]:
             args += ['--file', in_path(i)]
+        if i in spec.get('unspawnable', []):
+            args += ['--line_items', f'{nul_path(i)}::1-3']
         if args:
             x('step', 'dependency', '-s', f's{i}', *args)
     for j in sorted(need_out):
@@ -376,6 +390,8 @@ def oracle(case, o, first_run=True):
             failed.add(s)
         if s in case.get('missing', []) and whens[s] != 'never':
             failed.add(s)
+        if s in spec.get('unspawnable', []) and whens[s] != 'never':
+            failed.add(s)            # its command cannot be started: the step cannot end done
     # failure propagates through steps that are neither always nor never
     broken = set(failed)
     changed = True
@@ -455,6 +471,8 @@ def driver_input(case, trace, cid):
     for i in range(spec['n']):
         if spec['inputs'][i]:
             L.append(f'dep {i} file {in_path(i)}')
+    for i in spec.get('unspawnable', []):
+        L.append(f'dep {i} file {nul_path(i)}')
     for j in sorted({j for (_, j, k) in spec['edges'] if k in ('file', 'glob', 'globi')}):
         L.append(f'out {j} {out_path(j)}')
     L.append('trace-begin')
@@ -488,12 +506,14 @@ def signature(case, f):
             sig['kind'] = 'stderr-over-pipe-buffer'
         elif case.get('missing'):
             sig['kind'] = 'missing-dependency-file'
+        elif spec.get('unspawnable'):
+            sig['kind'] = 'unspawnable-command'
         elif _mixed_deps(case):
             sig['kind'] = 'mixed-done-and-broken-dependencies'
         else:
             sig['kind'] = 'hang'
     elif f['clause'] == 'pool':
-        sig['kind'] = 'pool-exceeded'
+        sig['kind'] = 'pool-exceeded-after-unspawnable-command' if spec.get('unspawnable') else 'pool-exceeded'
     elif f['clause'] in ('order', 'downstream'):
         sig['kind'] = 'glob-dependency-on-absent-output' if case.get('absent_outputs') and any(k in ('glob', 'globi') for (_, _, k) in spec['edges']) else 'order'
     elif f['clause'] == 'cycle':
@@ -507,7 +527,8 @@ def _mixed_deps(case):
     """some waiting step has a dependency that ends broken and one that ends done (predicted from the case alone)"""
     spec = case['spec']
     deps, whens = spec_deps(spec), spec['whens']
-    broken = {s for s in range(spec['n']) if whens[s] != 'never' and (case['behav'][s]['rc'] != 0 or s in case.get('missing', []))}
+    broken = {s for s in range(spec['n']) if whens[s] != 'never' and (case['behav'][s]['rc'] != 0 or s in case.get('missing', [])
+                                                                      or s in spec.get('unspawnable', []))}
     changed = True
     while changed:
         changed = False
@@ -524,6 +545,10 @@ def drop_step(case, k):
     ren = {i: (i if i < k else i - 1) for i in range(spec['n']) if i != k}
     nspec = {'n': spec['n'] - 1, 'edges': [[ren[a], ren[j], kd] for (a, j, kd) in spec['edges'] if a != k and j != k],
              'whens': [w for i, w in enumerate(spec['whens']) if i != k], 'inputs': [w for i, w in enumerate(spec['inputs']) if i != k]}
+    if spec.get('unspawnable'):
+        nspec['unspawnable'] = sorted(ren[i] for i in spec['unspawnable'] if i != k)
+        if not nspec['unspawnable']:
+            del nspec['unspawnable']
     c = dict(case)
     c['spec'] = nspec
     c['behav'] = [b for i, b in enumerate(case['behav']) if i != k]
@@ -660,9 +685,9 @@ def run_family(ctx, stream, cases, own, hook=False, timeout=20, workers=8, valid
             if a is None:
                 continue
             st['traces_validated'] += 1
-            if a.startswith('valid') and not case.get('missing') and any(len(l.split(' ')) > 1 and l.split(' ')[1] == 'D' for l in o['trace']):
+            if a.startswith('valid') and not case.get('missing') and not case['spec'].get('unspawnable') and any(len(l.split(' ')) > 1 and l.split(' ')[1] == 'D' for l in o['trace']):
                 a = 'invalid at=' + next(l.split(' ')[0] for l in o['trace'] if len(l.split(' ')) > 1 and l.split(' ')[1] == 'D') + \
-                    ' reason=unexpected-thread-failure (the case has no missing dependency file; `die` steps model handler errors only)'
+                    ' reason=unexpected-thread-failure (the case has no missing dependency file and no unspawnable command; `die` steps model handler errors only)'
             if not a.startswith('valid'):
                 st['trace_disagreements'] += 1
                 if st['trace_disagreements'] <= 3:
@@ -713,6 +738,9 @@ def describe(case):
     for i in range(spec['n']):
         if spec['inputs'][i]:
             L.append(f'xvc pipeline step dependency -s s{i} --file {in_path(i)}' + ('   # file deleted before the run' if i in case.get('missing', []) else ''))
+    for i in spec.get('unspawnable', []):
+        L.append(f"printf 'first\\nsecond\\0line\\nthird\\n' > {nul_path(i)}; xvc pipeline step dependency -s s{i} --line_items '{nul_path(i)}::1-3'"
+                 '   # NUL byte in XVC_ALL_LINE_ITEMS: the command of this step cannot be spawned (EINVAL)')
     L.append(f'xvc -c pipeline.process_pool_size={case["pool"]} pipeline run' + (f'   # x{case["runs"]}' if case.get('runs', 1) > 1 else ''))
     return L
 
